@@ -13,3 +13,26 @@ package l1infotreesync
 //@   allowcalls isHalted
 //@   ensureserror sync.ErrInconsistentState
 //@   ensureszero
+
+// ---- latest L1 info leaf at or below a block (C15): block 0 is refused, a block the syncer has not processed yet is
+// refused; the SELECT is pinned, its semantics assumed (A5)
+//@ ghost var l1LastProcessed int
+//@ func (p *processor) getLastProcessedBlockWithTx
+//@   trusted
+//@   sqltext "SELECT num FROM BLOCK ORDER BY num DESC LIMIT 1;"
+//@   modifies nothing
+//@   ensures result1 == nil ==> result0 == l1LastProcessed
+
+//@ extern github.com/russross/meddler.QueryRow@l1infotreesync.(*processor).GetLatestInfoUntilBlock (db, dst, query, args)
+//@   modifies *cast(dst, *L1InfoTreeLeaf)
+//@   ensures result == nil ==> cast(dst, *L1InfoTreeLeaf).BlockNumber <= unbox(args[0], uint64)
+
+//@ func (p *processor) GetLatestInfoUntilBlock
+//@   props C15
+//@   sqltext "SELECT * FROM l1info_leaf WHERE block_num <= $1 ORDER BY block_num DESC, block_pos DESC LIMIT 1;"
+//@   requires p != nil && p.db != nil && p.log != nil
+//@   modifies nothing
+//@   ensures[block-0-refused] blockNum == 0 ==> result0 == nil && result1 == ErrNoBlock0
+//@   ensures[unprocessed-block-refused] (result1 == nil) ==> l1LastProcessed >= blockNum
+//@   ensures[error-means-nothing] result1 != nil ==> result0 == nil
+//@   ensures[leaf-at-or-below-the-block] result1 == nil ==> result0 != nil && result0.BlockNumber <= blockNum
